@@ -61,6 +61,10 @@ def render(spec, layout, rng):
             return rng.choice(["\t", "\t\t", " \t "])
         return rng.choice([" ", "   "]) if (mand or rng.random() < 0.5) else ""
 
+    def wd():
+        # blanks between the dot and the pin name (legal Verilog; both parsers allow for it), only in the free-form styles
+        return w() if style in (2, 4) else ""
+
     def lst(items):
         return (w() + "," + w()).join(items)
 
@@ -104,15 +108,15 @@ def render(spec, layout, rng):
         for p in pins_in:
             d = A.preds[f"{inst}.{p}"]
             if d:
-                pins.append(f".{p}{w()}({w()}{opnd(d[0])}{w()})")
+                pins.append(f".{wd()}{p}{w()}({w()}{opnd(d[0])}{w()})")
             elif rng.random() < 0.5:
-                pins.append(f".{p}{w()}({w()})")
+                pins.append(f".{wd()}{p}{w()}({w()})")
         for p in pins_out:
             d = A.succs[f"{inst}.{p}"]
             if d:
-                pins.append(f".{p}{w()}({w()}{d[0]}{w()})")
+                pins.append(f".{wd()}{p}{w()}({w()}{d[0]}{w()})")
             elif rng.random() < 0.5:
-                pins.append(f".{p}{w()}({w()})")
+                pins.append(f".{wd()}{p}{w()}({w()})")
         rng.shuffle(pins)
         body.append(f"{bbn}{w(True)}{inst}{w()}({w()}{lst(pins)}{w()});")
     if layout % 3 != 0:
